@@ -61,3 +61,6 @@ package util
 //@   trusted
 //@   assigns mem(p)
 //@   ensures io: result1 == nil ==> 0 <= result0 && result0 <= len(p)
+//@ func NewConnWithContext
+//@   trusted
+//@   ensures made: result != nil
